@@ -337,6 +337,171 @@ def post_pts(ip, ctx, out):
     ip.prove('tebd/pt-index', z3.And([z3.BoolVal(ok)] + [c[2] == ctx['step'] - 1 for c in calls]))
 
 
+
+# ---------------------------------------------------------------------------------
+# traces, norm and reduced density matrices (tnnorm back end: free tensor symbols, all sizes)
+import itertools as _it
+import time as _time
+from pyvc import tnnorm as _tn
+from pyvc.tnnorm import TArr, TNode, equal as _tequal
+from pyvc.interp import Interp as _Interp
+from pyvc.modules import Repo as _Repo, describe as _describe
+from pyvc import values as _Vv
+
+
+def spec_dm(n, S, gam=None, lam_names=None):
+    """SPEC(S): the chain  ONE - G_0.cap_0 - l_0 - G_1.cap_1 - ... - G_{n-1}.cap_{n-1} - ONE  with the
+    physical leg of every site not in S closed with VECID (= vec of the identity, the partial
+    trace in Liouville space) and the legs of S split in (row, column) and grouped row-major:
+    rho_S[(r_s..), (c_s..)].  By construction  Tr_j SPEC(S) = SPEC(S - {j})  (closing the split
+    leg of j with a delta IS contraction with VECID), so code that meets SPEC for every S yields
+    mutually consistent reduced density matrices and  SPEC({}) = norm."""
+    b = [_tn.new_label() for _ in range(n + 1)]
+    p = [_tn.new_label() for _ in range(n)]
+    c = [_tn.new_label() for _ in range(n)]
+    f = [('ONE', (b[0],)), ('ONE', (b[n],))]
+    for i in range(n):
+        if gam and i in gam:
+            f += gam[i](b[i], p[i], c[i], b[i + 1])
+        else:
+            f.append(('G%d' % i, (b[i], p[i], c[i], b[i + 1])))
+        f.append(('cap%d' % i, (c[i],)))
+        if i not in S:
+            f.append(('VECID', (p[i],)))
+    for j in range(1, n):
+        f.append(('l%d' % (j - 1), (b[j],)))
+    S = sorted(S)
+    if len(S) == 0:
+        out = []
+    elif len(S) == 1:
+        out = [('half', p[S[0]], 'L'), ('half', p[S[0]], 'R')]
+    else:
+        out = [('flat',) + tuple(('half', p[s_], 'L') for s_ in S), ('flat',) + tuple(('half', p[s_], 'R') for s_ in S)]
+    return TArr(f, out)
+
+
+class TraceTarget:
+    """PtTebdBackend: __init__ -> [site gate, process-tensor layer] -> compute_traces -> get_norm /
+    get_density_matrix(S) for EVERY sorted non-empty subset S of the n sites, all run from the
+    real source on free tensor symbols; obligation: result == SPEC(S)."""
+
+    def __init__(self, n, evolve=False):
+        self.n, self.evolve = n, evolve
+        self.name = 'trace/density-matrices[n=%d%s]' % (n, ',after site gate + process tensors' if evolve else '')
+        self.qualname = 'backends.pt_tebd_backend.PtTebdBackend.get_density_matrix'
+        self.prop = PROP
+
+    def replay(self, ob):
+        return {'func': 'partial_trace_consistency', 'inputs': {'obligation': ob['name']}}
+
+    def run(self, timeout_ms, tier):
+        t0 = _time.time()
+        repo = _Repo()
+        q = 'backends.pt_tebd_backend.PtTebdBackend'
+        res = {'target': self.name, 'function': self.qualname, 'property': self.prop, 'paths': 0, 'obligations': [],
+               'undecided': [], 'errors': [], 'flags': ['FREE_TENSOR_SYMBOLS'], 'lib_pure': [],
+               'lib_used': ['tensornetwork (Node, ^, @, copy, Node.copy, split_edge, flatten_edges, reorder_edges, get_tensor)',
+                            'numpy.identity/diag/array/reshape']}
+        cls = repo.resolve(q)
+        fref = repo.resolve(self.qualname)
+        if cls is None or fref is None:
+            res['undecided'].append('contract target missing: %s' % self.qualname)
+            return res
+        res['function_info'] = _describe(fref)
+        R = Registry()
+        _tn.install(R)
+
+        @model
+        def m_array(ip, args, kw):
+            v = args[0]
+            if isinstance(v, TArr):
+                return v
+            if isinstance(v, list) and len(v) == 1:
+                return TArr.sym('ONE', 1)          # np.array([1.0]): closes a bond of dimension 1
+            raise Unsupported('np.array in wiring context')
+
+        @model
+        def m_isqrt(ip, args, kw):
+            """_isqrt(d*d) = d (dimensions are not represented)"""
+            return _tn.TDim('isqrt(%s)' % getattr(args[0], 'desc', args[0]))
+
+        @model
+        def m_complex(ip, args, kw):
+            return args[0]
+        R.lib_models['numpy.array'] = m_array
+        R.models['backends.pt_tebd_backend._isqrt'] = m_isqrt
+        R.inline_all = True
+        n = self.n
+
+        def fresh_backend(ip):
+            gam = [TArr.sym('G%d' % i, 4) for i in range(n)]
+            lam = [TArr.sym('l%d' % i, 1) for i in range(n - 1)]
+            return ip.call(cls, [gam, lam, Real('epsrel'), {}], {})
+
+        def pts(ip):
+            def mk(i):
+                @model
+                def cap(ip_, a, k):
+                    return TArr.sym('cap%d' % i, 1)
+
+                @model
+                def mpo(ip_, a, k):
+                    return TArr.sym('mpo%d' % i, 4) if i != 1 else None      # site 1 has no process tensor
+                return Obj('PT', {'get_cap_tensor': Builtin('pt.get_cap_tensor', cap), 'get_mpo_tensor': Builtin('pt.get_mpo_tensor', mpo)})
+            return [mk(i) for i in range(n)]
+        subsets = [list(c) for k in range(1, n + 1) for c in _it.combinations(range(n), k)]
+        gspec = None
+        if self.evolve:
+            # gate M on site 0:  G0[a,p,c,b] M[p',p];   process tensor mpo_i[c, c', p, p'] on its pt/physical legs
+            def g(i):
+                def f(bl, pl, cl, br):
+                    x, y = _tn.new_label(), _tn.new_label()
+                    fs = []
+                    if i == 0:
+                        z = _tn.new_label()
+                        fs += [('G0', (bl, z, x, br)), ('M', (y, z))]
+                    else:
+                        fs += [('G%d' % i, (bl, y, x, br))]
+                    if i != 1:
+                        fs += [('mpo%d' % i, (x, cl, y, pl))]
+                    else:
+                        # no process tensor on site 1: legs stay
+                        fs = [(nm, tuple(pl if l == y else cl if l == x else l for l in ls)) for nm, ls in fs]
+                    return fs
+                return f
+            gspec = {i: g(i) for i in range(n)}
+        for S in [None] + subsets:
+            _Vv.reset_fresh()
+            ip = _Interp(repo, R, [], solver_timeout_ms=timeout_ms)
+            nm = 'trace/norm' if S is None else 'trace/density-matrix[sites=%s]' % ','.join(map(str, S))
+            try:
+                be = fresh_backend(ip)
+                P = pts(ip)
+                if self.evolve:
+                    gate_ = Obj(repo.resolve('mps_mpo.SiteGate'), {'sites': [0], 'tensors': (TArr.sym('M', 2),)})
+                    ip.call(repo.resolve(q + '.apply_site_gate'), [be, gate_], {})
+                    ip.call(repo.resolve(q + '.apply_process_tensors'), [be, 3, P], {})
+                ip.call(repo.resolve(q + '.compute_traces'), [be, 3, P], {})
+                if S is None:
+                    got = be.fields['_total_trace']
+                    want = spec_dm(n, [], gspec)
+                else:
+                    got = ip.call(fref, [be, list(S)], {})
+                    want = spec_dm(n, S, gspec)
+                ok = isinstance(got, TArr) and _tequal(got, want)
+                info = {'computed': repr(got), 'required': repr(want)}
+            except PyRaise as pr:
+                ok, info = False, {'exception': pr.exc.typ, 'sites': S}
+            except Unsupported as u:
+                res['undecided'].append('unsupported construct: %s' % u)
+                continue
+            res['obligations'].append({'name': nm, 'backend': 'tnnorm', 'flags': ['FREE_TENSOR_SYMBOLS'], 'info': info, 'model': info,
+                                       'pc_sat': 'sat', 'result': 'discharged' if ok else 'refuted', 'seconds': 0.0})
+            res['paths'] += 1
+        res['seconds'] = round(_time.time() - t0, 3)
+        return res
+
+
 def rp(ob):
     return {'func': 'parallel_modes', 'inputs': {'obligation': ob['name']}}
 
@@ -362,6 +527,9 @@ def targets(tier='quick'):
     for order in (1, 2, 3):
         T.append(Target('tebd/propagator[order=%d]' % order, 'mps_mpo.compute_tebd_propagator', scen_tebd_prop(order), post_tebd_prop, RP, PROP))
     T.append(Target('tebd/pt-index', q + 'apply_process_tensors', scen_pts, post_pts, pts_registry(), PROP))
+    for n in (2, 3, 4, 5, 6):
+        T.append(TraceTarget(n))
+    T.append(TraceTarget(3, evolve=True))
     return T
 
 
